@@ -238,7 +238,8 @@ def verify_with_degradation(wd):
     raise Undecided("verus keeps rejecting the unit after degrading: " + "; ".join(forced))
 
 
-ARM_WORDS = {"C04": ["exists", "forall", "any ", "all "], "C05": ["["], "C06": ["lfp", "gfp", "mu ", "nu "]}
+ARM_WORDS = {"C03": ["&", "|", "^", "-", "!", "not", "and", "or", "nor", "nand", "=>", "<=", "implies", "iff", "eq", "if "],
+             "C04": ["exists", "forall", "any ", "all "], "C05": ["["], "C06": ["lfp", "gfp", "mu ", "nu "]}
 
 
 def degraded_props(b, fid, found):
@@ -714,7 +715,7 @@ def make_baseline():
 
 
 PROP_MODES = {
-    "C01": ["formula"], "C02": ["ops", "quant", "count", "model", "retain", "formula"], "C03": ["ops"],
+    "C01": ["formula"], "C02": ["ops", "quant", "count", "model", "retain", "formula"], "C03": ["ops", "formula"],
     "C04": ["quant", "formula"], "C05": ["count", "formula"], "C06": ["fp", "formula"], "C07": ["model"],
     "C08": ["parse"], "C09": ["formula", "index"], "C11": ["index"], "C12": ["parse", "formula", "index"],
     "C13": ["history", "ops", "retain"], "C20": ["retain"],
